@@ -23,7 +23,7 @@ from unyt import unyt_array, unyt_quantity
 from unyt.unit_object import Unit
 
 # ---- operand kinds ------------------------------------------------------------------------------------
-KINDS = ["same", "other", "diff", "dimless", "pct", "bscalar", "barray", "zero", "qlist", "empty", "qmixlist"]
+KINDS = ["same", "other", "diff", "dimless", "pct", "bscalar", "barray", "zero", "qlist", "empty", "qmixlist", "zeroq", "zeroqlist"]
 # (anchor unit, other unit of the same dimension, unit of a different dimension)
 DIM_TRIPLES_QUICK = [("m", "km", "s"), ("m", "cm", "erg"), ("g", "kg", "degree"), ("K", "R", "m"), ("A", "mA", "s"), ("G", "mG", "kg")]  # the last two: SI and Gaussian electromagnetic atoms (a conversion branch of their own)
 SHAPES = ["scalar", "array", "bcast"]
@@ -47,6 +47,11 @@ def mk(kind, triple, shape, side, seed=0):
         if np.ndim(data) == 0:
             return unyt_quantity(data, unit)
         return unyt_array(np.array(data), unit)
+    if kind == "zeroq":
+        # a quantity whose numbers are all zero still has its unit: it is no "bare zero"
+        return unyt_quantity(0.0, u) if np.ndim(data) == 0 else unyt_array(np.zeros(np.shape(data)), u)
+    if kind == "zeroqlist":
+        return [unyt_quantity(0.0, u) for _ in vals]
     if kind == "bscalar":
         return 2.5
     if kind == "barray":
@@ -67,7 +72,7 @@ def mk(kind, triple, shape, side, seed=0):
 def rdim(kind, triple):
     """reference dimension of an operand kind: RDim, or 'bare', or 'zero'."""
     u, uo, ud = triple
-    if kind in ("same", "other"):
+    if kind in ("same", "other", "zeroq", "zeroqlist"):
         return dim_of(Unit(u).dimensions)
     if kind in ("diff", "qlist", "empty"):
         return dim_of(Unit(ud).dimensions)
@@ -79,7 +84,7 @@ def rdim(kind, triple):
 
 
 def is_q(kind):
-    return kind in ("same", "other", "diff", "dimless", "pct", "qlist", "empty", "qmixlist")
+    return kind in ("same", "other", "diff", "dimless", "pct", "qlist", "empty", "qmixlist", "zeroq", "zeroqlist")
 
 
 # ---- operations ------------------------------------------------------------------------------------------
@@ -351,9 +356,11 @@ def eval_case(ctx, op, lk, rk, triple, shape, seed=0):
         # a plain list of quantities against bare data never reaches unyt's dispatch (NumPy converts
         # the list itself): nothing unyt could refuse
         v = None
-    if ("qlist" in (lk, rk) or "qmixlist" in (lk, rk)) and klass not in ("arith", "order", "eq", "ne"):
-        # array functions hand a plain list to NumPy, which converts it before unyt sees it
-        v = None
+    if ("qlist" in (lk, rk) or "qmixlist" in (lk, rk) or "zeroqlist" in (lk, rk)) and klass not in ("arith", "order", "eq", "ne"):
+        # array functions hand a plain list to NumPy, which converts it before unyt sees it - except where the list is a
+        # value put INTO a unyt array (item assignment, boundary / fill values): there unyt's own code receives it
+        if not (klass == "into" and rk in ("qlist", "zeroqlist") and isinstance(x, unyt_array)):
+            v = None
     if "empty" in (lk, rk) and (isinstance(ld, str) or isinstance(rd, str)):
         v = None  # an empty quantity against bare data: no number is combined with any other, and unyt reads "no non-zero element" as zero
     if name == "copyto":
